@@ -28,6 +28,9 @@ report contains violation if {
 
 	chr == `"`
 
+	# a pattern containing a backtick can't be written as a raw string
+	not contains(value[pos].value, "`")
+
 	violation := result.fail(rego.metadata.chain(), result.location(value[pos]))
 }
 
